@@ -87,6 +87,8 @@ def dispatch (op : String) (args : List String) : Option String :=
   -- … and a payload that is not strict CBOR is refused when the payload destination is a typed value
   | "wire.badpayload" => some "rejected"
   | "cbor.encdup" => some "no-dup"
+  -- … nor a message whose header bucket holds one label twice (the caller's, under another Go integer kind, and the library's)
+  | "wire.msgdup" => some "no-dup"
   | _ => none
 
 end Cose.Driver.CborOps
